@@ -64,6 +64,48 @@ def unified_text(msf, names, **kw):
     return buf.getvalue()
 
 
+def code_lines(path):
+    """an independent reading of one header: its code lines (no blank lines, no #pragma once, no #include, no leading licence comment)
+    and its system includes"""
+    code, incs = [], []
+    in_header = True
+    for raw in open(path):
+        line = raw.rstrip()
+        if in_header and (line.startswith("//") or not line.strip()):
+            continue
+        in_header = False
+        if not line.strip() or line.startswith("#pragma once"):
+            continue
+        if line.startswith("#include"):
+            if '"au/' not in line:
+                incs.append(line)
+            continue
+        code.append(line)
+    return code, incs
+
+
+def text_faithful(text, ready, root, n_manifest_items):
+    """does the unified text consist of exactly the code lines of the files in `ready` order, once each, and of all their system includes?"""
+    want_code, want_incs = [], set()
+    for f in ready:
+        c, i = code_lines(os.path.join(root, "au", "code", f))
+        want_code += c
+        want_incs |= set(i)
+    lines = text.splitlines()
+    ver = next((k for k, l in enumerate(lines) if l.startswith("// Version identifier:")), None)
+    if ver is None:
+        return {"code_same": 0, "incs_same": 0, "first_diff": "no manifest in the generated text", "incs_diff": []}
+    start = ver + 3 + n_manifest_items          # version, <iostream>, "units:", the units, "constants:", the constants
+    got_code = [l.rstrip() for l in lines[start + 1:] if l.strip() and not l.startswith("#include")]
+    got_incs = {l.rstrip() for l in lines if l.startswith("#include")}
+    first_bad = next((k for k, (a, b) in enumerate(zip(got_code, want_code)) if a != b), None)
+    if first_bad is None and len(got_code) != len(want_code):
+        first_bad = min(len(got_code), len(want_code))
+    return {"code_same": int(first_bad is None), "incs_same": int(got_incs == want_incs),
+            "first_diff": "" if first_bad is None else "line %d: got `%s`, source has `%s`" % (first_bad, (got_code + ["<end>"])[min(first_bad, len(got_code))][:120], (want_code + ["<end>"])[min(first_bad, len(want_code))][:120]),
+            "incs_diff": sorted(got_incs ^ want_incs)[:6]}
+
+
 def main():
     mode, repo = sys.argv[1], sys.argv[2]
     msf = load_tool(repo)
@@ -123,7 +165,8 @@ def main():
             with open(os.path.join(d, "au.hh"), "w") as fh:
                 fh.write(buf.getvalue())
             text = buf.getvalue()
-            return {"id": i, "sel": start, "graph": graph, "files": order, "ready": ready, "dir": d,
+            faith = text_faithful(text, msf.sort_topologically(msf.parse_files(filenames=list(names))), repo, len(s["units"]) + len(s["constants"]))
+            return {"id": i, "sel": start, "graph": graph, "files": order, "ready": ready, "dir": d, "faith": faith,
                     "project_includes_left": [l for l in text.splitlines() if l.startswith('#include "au')],
                     "pragma_once_count": text.count("#pragma once")}
           print(json.dumps(guarded(i, one, 120)), flush=True)
